@@ -64,8 +64,10 @@ def _success(info):
 BASE_CHAINS = ["root-default", "solve-default", "root-lin", "root-loglin-cc"]
 HOMOG_CHAINS = ["root-log-rref", "roots", "stub", "root-x0", "root-x0-loglin", "roots-x0",
                 "root-square", "root-linrel", "root-lintanh", "root-static", "root-log-rp", "root-lin-rp",
-                "root-tol", "root-array", "root-ddict", "root-reuse", "solve-varied", "solve-varied2", "roots-index"]
-SALT_CHAINS = ["root-x0", "root-log-rp", "root-tol", "root-array", "root-reuse", "root-ddict"]
+                "root-tol", "root-array", "root-ddict", "root-reuse", "solve-varied", "solve-varied2", "roots-index",
+                "root-log-re", "root-loglin-re"]
+SALT_CHAINS = ["root-x0", "root-log-rp", "root-tol", "root-array", "root-reuse", "root-ddict",
+               "root-log-rref", "root-log-re", "root-loglin-re"]
 
 
 def _varied(names, c0, rng_val):
@@ -125,6 +127,10 @@ def _call(es, names, c0, guess, chain, rng_val):
         return one(es.root(init, NumSys=(NumSysLog, NumSysLin), neqsys_type="conditional_chained"))
     if chain == "root-log-rref":
         return one(es.root(init, NumSys=(NumSysLog,), rref_equil=True, rref_preserv=True))
+    if chain == "root-log-re":        # row-reduced equilibrium block only
+        return one(es.root(init, NumSys=(NumSysLog,), rref_equil=True))
+    if chain == "root-loglin-re":
+        return one(es.root(init, NumSys=(NumSysLog, NumSysLin), rref_equil=True))
     if chain == "root-log-rp":
         return one(es.root(init, NumSys=(NumSysLog,), rref_preserv=True))
     if chain == "root-lin-rp":
@@ -233,7 +239,7 @@ def run_problem(job):
         c0enc, _ = ec.enc_vec(c0row, s_exp)
         lnk = [int(round(math.log(k) * 1e6)) for k in ks]
         tr = [{"ev": "problem", "rs": inp["rids"], "lnK": lnk, "c0": c0enc, "sexp": s_exp}] + body
-        meta = dict(chain=chain, rids=inp["rids"], cls=case["cls"], K=inp["K"], c0=[float("%.6g" % v) for v in c0row],
+        meta = dict(chain=chain, rids=inp["rids"], cls=case["cls"], saturation=case["exp"].get("saturation"), K=inp["K"], c0=[float("%.6g" % v) for v in c0row],
                     wellcond=bool(case["exp"]["wellcond"]), clipped=clipped, row=idx, spform=spform)
         failed = exc is not None and (rows is None or idx >= len(rows))
         if failed:
@@ -312,7 +318,9 @@ def _judge(ctx, items, cfg="EqSolveTrace.cfg"):
 def _plan(ctx, cases):
     """stratified choice of problems and the chains each is run under"""
     n = 140 if ctx.quick else 1800
-    sel = ctx.pick(cases, n)
+    # stratify by class and, for salts, by the saturation the spec decided
+    wrapped = [{"cls": c["cls"] + "-" + c["exp"].get("saturation", "none"), "case": c} for c in cases]
+    sel = [w["case"] for w in ctx.pick(wrapped, n)]
     jobs = []
     for c in sel:
         homog = c["exp"]["homog"]
@@ -352,7 +360,7 @@ def run(ctx):
     pool_cases = []
     for tag in (("q",) if ctx.quick else ("q", "t")):
         pool = ctx.tlc("EqSolve_MC", "EqSolve_MC_pool_%s.cfg" % tag,
-                       require_actions=["GenPickHomog", "GenPickSalt", "ShiftK", "GenPickInit"] if tag == "q" else (),
+                       require_actions=["GenPickHomog", "GenPickSalt", "GenShiftK", "GenPickInit"] if tag == "q" else (),
                        require_cases=500, timeout=900)
         pool_cases += pool.cases
     # TLC prints cases in worker order: sort, so that the seed alone determines the sample
@@ -367,6 +375,11 @@ def run(ctx):
     for k in ("homog-well", "salt-reac", "salt-prod"):
         if not classes[k]:
             raise core.MachineryFailure("problem pool: class %s is empty" % k)
+    sats = collections.Counter((c["cls"], c["exp"]["saturation"]) for c in cases if c["cls"].startswith("salt"))
+    for k in (("salt-reac", "unsat"), ("salt-reac", "sat"), ("salt-prod", "unsat"), ("salt-prod", "sat")):
+        if not sats[k]:
+            raise core.MachineryFailure("problem pool: no %s %s salt problem" % k)
+    ctx.counters["salt_unsaturated_problems"] = sats[("salt-reac", "unsat")] + sats[("salt-prod", "unsat")]
     ctx.counters["pool_problems"] = len(cases)
 
     sel, jobs = _plan(ctx, cases)
